@@ -611,6 +611,25 @@ def resolved_uniform_case(rng, n0=None):
     return c
 
 
+def stretch_for_decay(c, target):
+    """rescale the heights of a uniform-profile request so that the fastest-decaying retained component has Re(mu) * h = target at the
+    top node: beyond ~745 the factor exp(-mu h) underflows to zero (and exp(+mu h) overflows) - the closed form is simply 0 there"""
+    px, py, dx, dy = pads_of(c)
+    ny, nx = np.asarray(c["q"]).shape
+    Nx, Ny = nx + 2 * px, ny + 2 * py
+    nlx, nly = c["modes"]
+    if nlx > Nx or nly > Ny:
+        nlx, nly = Nx, Ny
+    u, v, Kx, Ky, Kz = [float(np.asarray(p)[-1]) for p in c["profiles"]]
+    Lx = 2 * np.pi * (nlx // 2) / (dx * Nx)
+    Ly = 2 * np.pi * (nly // 2) / (dy * Ny)
+    mu = np.sqrt(complex((Kx * Lx ** 2 + Ky * Ly ** 2) / Kz, (abs(u) * Lx + abs(v) * Ly) / Kz))
+    z = np.asarray(c["z"], dtype=float)
+    fac = target / max(mu.real * (z[-1] - z[0]), 1e-300)
+    c["z"] = z[0] + (z - z[0]) * fac
+    return c
+
+
 def run_C05(rng, tier, deep):
     st = new_stats()
     cases = []
@@ -628,6 +647,9 @@ def run_C05(rng, tier, deep):
             c["par"] = dict(c.get("par") or {}, prelude_grid=[int(rng.integers(-2, 4)) or 1, int(rng.integers(-2, 4)) or 2])
             if rng.random() < 0.6:
                 c["modes"] = (2, 2)      # not clipped on either grid
+        if rng.random() < 0.25:
+            # very high levels / very fine grids: the decay factor of the short waves underflows
+            stretch_for_decay(c, float(rng.choice([400.0, 800.0, 2000.0, 1e4])))
         run_oracle(st, o_closed_form, c)
     for _ in range(budget(tier, deep, 8, 60)):
         run_oracle(st, o_third_order, resolved_uniform_case(rng))
@@ -638,7 +660,7 @@ def run_C05(rng, tier, deep):
         c["par"]["levels"] = [int(x) for x in (rng.permutation(n + 1)[:k] if rng.random() < 0.7 else rng.integers(0, n + 1, size=k))]
         run_oracle(st, o_numeric_levels, c)
     return finish(st, "uniform-profile requests (analytic and numeric, all halo/level/mode kinds); closed-form oracle = independent direct spectral synthesis "
-                  "in numpy (also right after the same domain / halo / modes on another grid); order oracle = numeric vs analytic at n, 2n, 4n layers in the resolved regime (|mu dz| <= 0.5)", deep, TOL)
+                  "in numpy (also right after the same domain / halo / modes on another grid, and at heights where exp(-mu h) underflows); order oracle = numeric vs analytic at n, 2n, 4n layers in the resolved regime (|mu dz| <= 0.5)", deep, TOL)
 
 
 # ------------------------------------------------------------ C06 translation equivariance
@@ -1160,6 +1182,8 @@ def profile_family(par):
             return k0 * (0.2 + z / H)
         if kind_k == "power":
             return k0 * (z / H + 0.05) ** par.get("pk", 0.8)
+        if kind_k == "surface":
+            return 0.4 * k0 * z            # neutral surface layer: proportional to height, millimetres small at the roughness length
         # MOST-like: kappa u* z / phi(z/L)
         x = z / L
         phi = np.where(x > 0, 1 + 5 * x, (1 - 16 * np.minimum(x, 0.0)) ** -0.5)
@@ -1214,10 +1238,14 @@ def o_convergence(par):
     worst_first = 0.0
     for n in (n0, 4 * n0, 16 * n0):
         s = np.linspace(0, 1, n + 1)
-        z = z0 + (H - z0) * s ** gam
+        if par.get("grid") == "geom":
+            z = z0 * (H / z0) ** s          # geometric grid: constant RELATIVE thickness, very thin layers next to the surface
+            z[0], z[-1] = z0, H
+        else:
+            z = z0 + (H - z0) * s ** gam
         lout = int(round(frac * n0)) * (n // n0)
         prof = tuple(f(z) for f in fns)
-        case = dict(q=q, z=z, profiles=prof, domain=(xmx, ymx), levels=[lout, n], modes=(nx, ny), meas_pt=(0.0, 0.0),
+        case = dict(q=q, z=z, profiles=prof, domain=(xmx, ymx), levels=[lout, n, 0], modes=(nx, ny), meas_pt=(0.0, 0.0),
                     bg=0.0, footprint=False, analytic=False, halo=0.0, precision="double")
         conc, flx, Z = solve3(case)
         Fq = np.fft.fft2(q)
@@ -1243,12 +1271,12 @@ def o_convergence(par):
             for a in range(ny):
                 for b in range(nx):
                     if resolved[a, b]:
-                        exact[(a, b)] = exact_transfer(fns, Lx[b], Ly[a], z0, H, [z[lout], H])
+                        exact[(a, b)] = exact_transfer(fns, Lx[b], Ly[a], z0, H, [z[lout], H, z0])
             rel_dz = float(np.max(np.diff(z)[1:] / z[1:-1])) if n > 1 else 1.0
             rel_dz = max(rel_dz, float((z[1] - z[0]) / z[1]))
         e = 0.0
         for (a, b), ex in exact.items():
-            for k in range(2):
+            for k in range(3):      # an interior level, the top node, and the surface (whose concentration carries the whole resistance)
                 pe, qe = ex[k]
                 e = max(e, abs(Wq[k, a, b] - qe) / max(abs(qe), 1e-300) if abs(qe) > 1e-9 else 0.0)
                 e = max(e, abs(Wp[k, a, b] - pe) / max(abs(pe), 1e-300) if abs(pe) > 1e-9 * abs(ex[0][0]) else 0.0)
@@ -1287,6 +1315,15 @@ def conv_par(rng):
                 veer=float(rng.choice([0.0, 1.0]) * rng.uniform(-1.0, 1.0)))
 
 
+def conv_par_geom(rng, n0):
+    """a geometric grid from a millimetre-scale roughness length: the layers next to the surface are thinner than 1e-6 of the
+    column at the finer resolutions although each carries its share of the vertical resistance"""
+    par = conv_par(rng)
+    par.update(grid="geom", z0=float(rng.choice([1e-3, 2e-3, 5e-3])), H=float(rng.uniform(10, 25)), n0=int(n0), gamma=1.0,
+               diff=str(rng.choice(["surface", "surface", "most"])), veer=0.0)
+    return par
+
+
 def _load_corpus(name):
     import json
     import os
@@ -1313,6 +1350,8 @@ def run_C01(rng, tier, deep):
         run_oracle(st, o_convergence, dict(par))
     for _ in range(budget(tier, deep, 6, 60)):
         run_oracle(st, o_convergence, conv_par(rng))
+    for k in range(budget(tier, deep, 1, 4)):
+        run_oracle(st, o_convergence, conv_par_geom(rng, 32 if not deep and tier == "quick" else [64, 128][k % 2]))
     return finish(st, "correspondence on height-dependent profiles; oracle: per-mode transfer functions fft2(out)/fft2(src) at n, 4n, 16n layers "
                   "against an independent Riccati integration of the exact BVP (scipy DOP853, rtol 1e-11) for log/power wind x linear/power/MOST "
-                  "diffusivity x anisotropy x wind angle x wind veering with height x uniform/stretched grids, resolved components only", deep, TOL)
+                  "diffusivity x anisotropy x wind angle x wind veering with height x uniform/stretched/geometric (mm-scale z0, up to 2048 layers in the deep search) grids, resolved components only", deep, TOL)
